@@ -44,17 +44,36 @@ func CollectRaceReports(work string, anchors []string) []RaceReport {
 			}
 			var fns []string
 			attributed := false
+			// owner of an access = its innermost frame that is repo or harness code
+			// (library frames such as a JSON encoder reading a repo struct are skipped)
+			harness := false
+			ownerSeen := false
 			for _, l := range strings.Split(acc, "\n") {
+				if strings.Contains(l, "by goroutine") || strings.HasPrefix(strings.TrimSpace(l), "Previous ") || strings.HasPrefix(strings.TrimSpace(l), "Read at") || strings.HasPrefix(strings.TrimSpace(l), "Write at") {
+					ownerSeen = false
+				}
 				if m := funcRe.FindStringSubmatch(l); m != nil {
 					fns = append(fns, m[1])
 				}
 				if m := frameRe.FindStringSubmatch(l); m != nil {
+					inRepo := strings.Contains(m[1], "/pkg/") && !strings.Contains(m[1], "/go/pkg/mod/") && !strings.HasPrefix(m[1], "/verif/")
+					inHarness := strings.HasPrefix(m[1], "/verif/")
+					if !ownerSeen && (inRepo || inHarness) {
+						ownerSeen = true
+						if inHarness {
+							harness = true
+						}
+					}
 					for _, a := range anchors {
 						if strings.HasSuffix(m[1], a) {
 							attributed = true
 						}
 					}
 				}
+			}
+			if harness {
+				// one of the racing accesses is the harness's own: a harness bug, not the repo's
+				attributed = false
 			}
 			// key: first 4 functions of each stack is enough and stable
 			if len(fns) > 10 {
@@ -70,6 +89,9 @@ func CollectRaceReports(work string, anchors []string) []RaceReport {
 			t := block
 			if len(t) > 5000 {
 				t = t[:5000]
+			}
+			if harness {
+				key = "HARNESS:" + key
 			}
 			byKey[key] = &RaceReport{Key: key, Text: t, Attributed: attributed, Count: 1}
 		}
